@@ -12,6 +12,7 @@ use serde_json::{Value, json};
 use std::panic::{AssertUnwindSafe, catch_unwind};
 use std::sync::atomic::{AtomicU64, Ordering};
 use std::sync::mpsc;
+use std::sync::Arc;
 use std::time::Duration;
 
 use crate::SplitMix64;
@@ -490,22 +491,40 @@ pub enum Step {
 pub enum Src {
     Vec(Shape, Vec<Val>),
     Sharded(Shape, Vec<Vec<Val>>, usize),
+    /// `from_custom_source` over a Vec payload with a user-written VecOps whose `len` is `None`
+    NoLen(Shape, Vec<Val>),
+}
+/// a user-written VecOps: splits and clones like the built-in one but cannot tell its length
+pub struct NoLenOps(pub Arc<dyn ironbeam::VecOps>);
+impl ironbeam::VecOps for NoLenOps {
+    fn len(&self, _data: &dyn std::any::Any) -> Option<usize> {
+        None
+    }
+    fn split(&self, data: &dyn std::any::Any, n: usize) -> Option<Vec<ironbeam::Partition>> {
+        self.0.split(data, n)
+    }
+    fn clone_any(&self, data: &dyn std::any::Any) -> Option<ironbeam::Partition> {
+        self.0.clone_any(data)
+    }
+}
+fn nolen_source<T: ironbeam::RFBound>(p: &Pipeline, rows: Vec<T>) -> PCollection<T> {
+    ironbeam::from_custom_source::<T, Vec<T>>(p, rows, Arc::new(NoLenOps(ironbeam::type_token::vec_ops_for::<T>())))
 }
 impl Src {
     pub fn shape(&self) -> Shape {
         match self {
-            Src::Vec(s, _) | Src::Sharded(s, _, _) => *s,
+            Src::Vec(s, _) | Src::Sharded(s, _, _) | Src::NoLen(s, _) => *s,
         }
     }
     pub fn len(&self) -> usize {
         match self {
-            Src::Vec(_, d) => d.len(),
+            Src::Vec(_, d) | Src::NoLen(_, d) => d.len(),
             Src::Sharded(_, sh, _) => sh.iter().map(Vec::len).sum(),
         }
     }
     pub fn data(&self) -> Vec<Val> {
         match self {
-            Src::Vec(_, d) => d.clone(),
+            Src::Vec(_, d) | Src::NoLen(_, d) => d.clone(),
             Src::Sharded(_, sh, _) => sh.concat(),
         }
     }
@@ -654,6 +673,7 @@ pub fn src_json(s: &Src) -> Value {
             json!(["range", shape_name(*sh).unwrap(), d.len()])
         }
         Src::Vec(sh, d) => json!(["vec", shape_name(*sh).unwrap(), vals_json(d)]),
+        Src::NoLen(sh, d) => json!(["nolen", shape_name(*sh).unwrap(), vals_json(d)]),
         Src::Sharded(sh, shards, total) => json!([
             "sharded",
             shape_name(*sh).unwrap(),
@@ -671,6 +691,7 @@ pub fn parse_src(j: &Value) -> R<Src> {
     };
     let src = match tag_of(j) {
         Some(("vec", [s, d])) => Src::Vec(shape(s)?, parse_vals(d)?),
+        Some(("nolen", [s, d])) => Src::NoLen(shape(s)?, parse_vals(d)?),
         Some(("range", [s, n])) => {
             let shp = shape(s)?;
             if shp == Shape::KG {
@@ -1332,23 +1353,27 @@ pub struct Built {
     pub file: Option<String>,
 }
 
+fn kg_rows(d: &[Val]) -> Vec<(Val, Vec<Val>)> {
+    d.iter()
+        .map(|v| match v {
+            Val::Pair(k, x) => match &**x {
+                Val::List(l) => ((**k).clone(), l.clone()),
+                _ => unreachable!(),
+            },
+            _ => unreachable!(),
+        })
+        .collect()
+}
+
 pub fn build(p: &Pipeline, src: &Src, steps: &[Step], dir: &str) -> R<Built> {
     let mut file = None;
     let c = match src {
         Src::Vec(Shape::U, d) => Coll::U(from_vec(p, d.clone())),
         Src::Vec(Shape::KV, d) => Coll::KV(from_vec(p, kv_rows(d))),
-        Src::Vec(Shape::KG, d) => Coll::KG(from_vec(
-            p,
-            d.iter()
-                .map(|v| match v {
-                    Val::Pair(k, x) => match &**x {
-                        Val::List(l) => ((**k).clone(), l.clone()),
-                        _ => unreachable!(),
-                    },
-                    _ => unreachable!(),
-                })
-                .collect::<Vec<(Val, Vec<Val>)>>(),
-        )),
+        Src::Vec(Shape::KG, d) => Coll::KG(from_vec(p, kg_rows(d))),
+        Src::NoLen(Shape::U, d) => Coll::U(nolen_source(p, d.clone())),
+        Src::NoLen(Shape::KV, d) => Coll::KV(nolen_source(p, kv_rows(d))),
+        Src::NoLen(Shape::KG, d) => Coll::KG(nolen_source(p, kg_rows(d))),
         Src::Sharded(Shape::U, sh, total) => {
             let (path, lps) = write_sharded(dir, sh, *total)?;
             file = Some(path.clone());
@@ -1605,6 +1630,60 @@ pub fn run_prog_case(input: &Value, dir: &str) -> Value {
         Ok((src, steps, mode)) => run_program(&src, &steps, mode, dir),
         Err(_) => json!(["invalid"]),
     }
+}
+/// kind "sorted": in = [src, steps, partitions_or_null, which] -> observed outcome of the sorting
+/// collectors: which = 0 collect_seq_sorted (sequential only), 1 collect_par_sorted,
+/// 2 collect_par_sorted_by_key (pair-shaped results only)
+pub fn run_sorted_case(input: &Value, dir: &str) -> Value {
+    let parsed = (|| -> R<(Src, Vec<Step>, Mode, usize)> {
+        let a = input.as_array().ok_or("input")?;
+        if a.len() != 4 {
+            return Err("input arity".into());
+        }
+        Ok((parse_src(&a[0])?, parse_steps(&a[1])?, parse_mode(&a[2])?, nat(&a[3])?))
+    })();
+    let Ok((src, steps, mode, which)) = parsed else { return json!(["invalid"]) };
+    if !valid_program(&src, &steps) || steps.iter().any(|s| matches!(s, Step::TryMap(..))) {
+        return json!(["invalid"]);
+    }
+    match (which, mode) {
+        (0, Mode::Seq) | (1 | 2, Mode::Par(_)) => {}
+        _ => return json!(["invalid"]),
+    }
+    let dir = dir.to_string();
+    watchdog(move |file| {
+        let built = match build(&Pipeline::default(), &src, &steps, &dir) {
+            Ok(b) => b,
+            Err(_) => return json!(["invalid"]),
+        };
+        *file = built.file.clone();
+        fn plain<T: Row + Ord + ironbeam::RFBound>(c: PCollection<T>, mode: Mode) -> Value {
+            rows_json(match mode {
+                Mode::Seq => c.collect_seq_sorted(),
+                Mode::Par(n) => c.collect_par_sorted(threads(), Some(n)),
+            })
+        }
+        fn by_key<V: ironbeam::RFBound>(c: PCollection<(Val, V)>, mode: Mode) -> Value
+        where
+            (Val, V): Row,
+        {
+            match mode {
+                Mode::Par(n) => rows_json(c.collect_par_sorted_by_key(threads(), Some(n))),
+                Mode::Seq => json!(["invalid"]),
+            }
+        }
+        match (which, built.coll) {
+            (0 | 1, Coll::U(c)) => plain(c, mode),
+            (0 | 1, Coll::KV(c)) => plain(c, mode),
+            (0 | 1, Coll::KG(c)) => plain(c, mode),
+            (0 | 1, Coll::KW(c)) => plain(c, mode),
+            (0 | 1, Coll::L(c)) => plain(c, mode),
+            (2, Coll::KV(c)) => by_key(c, mode),
+            (2, Coll::KG(c)) => by_key(c, mode),
+            (2, Coll::KW(c)) => by_key(c, mode),
+            _ => json!(["invalid"]),
+        }
+    })
 }
 // ---- compact observations for big results (mirrors Canon.summary)
 const HP: i64 = 1_000_000_007;
@@ -1868,6 +1947,8 @@ pub fn has_list(v: &Val) -> bool {
 pub fn source_parts(src: &Src, partitions: usize) -> Vec<Vec<Val>> {
     match src {
         Src::Sharded(_, sh, _) => sh.clone(),
+        // length unknown: the runner clamps the partition count against unwrap_or(0)
+        Src::NoLen(_, d) => vec![d.clone()],
         Src::Vec(_, d) => {
             let n = partitions.max(1).min(d.len().max(1));
             if n <= 1 || d.len() <= 1 {
@@ -2433,6 +2514,10 @@ pub fn gen_src(rng: &mut SplitMix64, n: usize, allow_kg: bool, allow_sharded: bo
             lines.chunks(lps).map(|c| c.iter().flatten().cloned().collect()).collect();
         return Src::Sharded(shape, shards, total);
     }
+    if allow_sharded && rng.chance(1, 12) {
+        // a custom source that cannot tell its length
+        return Src::NoLen(shape, rows);
+    }
     Src::Vec(shape, rows)
 }
 
@@ -2446,6 +2531,9 @@ pub fn case_tags(src: &Src, steps: &[Step], mode: Mode, extra: &[&str]) -> Vec<S
     t.push(match mode { Mode::Seq => "seq".into(), Mode::Par(_) => "par".into() });
     t.push(format!("len{}", match src.len() { 0 => "0", 1 => "1", 2..=8 => "2-8", _ => "9+" }));
     t.push(format!("steps{}", match steps.len() { 0 => "0", 1..=3 => "1-3", 4..=8 => "4-8", _ => "9+" }));
+    if matches!(src, Src::NoLen(..)) {
+        t.push("nolen".into());
+    }
     if matches!(src, Src::Sharded(..)) {
         t.push("sharded".into());
     }
